@@ -342,6 +342,59 @@ def h_caps(ctx, c, pool_names):
     return summary(got)
 
 
+EARLIER_OPENS = (  # capability TLVs of an OPEN decoded EARLIER in the process (another neighbor, or the previous session of this one)
+    ('rr-then-cisco-rr', K.cap(2) + K.cap(128)), ('cisco-rr-only', K.cap(128)), ('cisco-rr-then-rr', K.cap(128) + K.cap(2)),
+    ('multisession-cisco', K.cap(0x83, b'\x01')), ('multisession-then-cisco', K.cap(0x44, b'\x01') + K.cap(0x83, b'\x01')),
+    ('unknown-code', K.cap(200, b'\x01\x02')), ('enhanced-rr-and-cisco', K.cap(70) + K.cap(128)), ('none', b''),
+)
+
+
+def h_second_session(ctx, confs):
+    """Two sessions in one process.  An OPEN with pre-standard / vendor capability codes is decoded first (what the
+    previous connection, or another neighbor, received); then the session under test runs.  The OPEN we send on it is,
+    octet for octet, the OPEN the same configuration produced before anything was decoded, and the parameters in force
+    are the RFC function of the two OPENs of THIS session."""
+    c = confs[ctx.choice('conf', len(confs))]
+    neighbor = K.neighbor_from(conf_text(c))
+    pool = [FC[f] for f in c['families']]
+    neg0, ours0, wire0 = real_session(neighbor)
+    name, tail = EARLIER_OPENS[ctx.choice('earlier', len(EARLIER_OPENS))]
+    early = K.peer_open_body(asn=c['peer_as'], families=pool[:1], asn4=True, extra_caps=tail)
+    first, refused = decode_peer(ctx, early, neg0)
+    if refused is None:
+        neg0.received(first)
+        ctx.cover('earlier-open-decoded')
+    ctx.cover('earlier:' + name)
+    # ---- the session under test
+    neg, ours, wire = real_session(neighbor)
+    r = O.decode_open(wire[19:], bool)
+    if r[0] == 'open':
+        # absolute, not relative to the first OPEN of the path: what earlier PATHS left in the process must not hide it
+        wantc = sorted((code, canonical(code, v)) for code, v in expected_capabilities(c))
+        gotc = sorted((code, canonical(code, bytes(v))) for code, v in r[1]['caps'])
+        ctx.check('advertises-exactly-the-configuration', gotc == wantc, sig='C07:second-session:capabilities-not-configured',
+                  info={'decoded-before': name, 'got': [(k, v.hex()) for k, v in gotc], 'want': [(k, v.hex()) for k, v in wantc]})
+    has_rr = bool(ctx.bool('cap:route-refresh'))
+    has_err = bool(ctx.bool('cap:enhanced-route-refresh'))
+    hold = ctx.int('peer.hold', 0, 65535)
+    body = K.peer_open_body(asn=c['peer_as'], hold=hold, families=pool, asn4=True, route_refresh=has_rr, enhanced_refresh=has_err)
+    theirs, refused = decode_peer(ctx, body, neg)
+    if refused is not None:
+        ctx.cover('refused')
+        return ('refused', refused)
+    neg.received(theirs)
+    got = negotiated_fields(neg, pool)
+    o_ours = oracle_open(ctx, wire[19:], 'our')
+    o_theirs = oracle_open(ctx, body, 'peer')
+    if o_ours is None or o_theirs is None:
+        return 'oracle-refused'
+    want = O.negotiate(o_ours, o_theirs, c['local_as'], bool, s_ite)
+    want['peer_fields_agree'] = True
+    compare_negotiated(ctx, got, want, c, pool)
+    ctx.cover('refresh-' + want['refresh'])
+    return (name, summary(got))
+
+
 def caps_covers(c):
     tags = ['families-common', 'families-empty', 'msg-size-4096', 'refresh-absent']
     tags += ['asn4-both', 'asn4-one-side'] if c['asn4'] else ['asn4-one-side', 'asn4-neither']
@@ -872,6 +925,9 @@ def units(tier):
         us.append(Unit('nego/caps/' + c['name'], lambda ctx, c=c: h_caps(ctx, c, pool), must_cover=caps_covers(c), max_paths=60000,
                        max_seconds=900 if thorough else 160, weight=1))
     rconfs = REFUSAL_THOROUGH if thorough else REFUSAL_QUICK
+    second = [CAPS_QUICK[5], CAPS_QUICK[6], CAPS_QUICK[0]]
+    us.append(Unit('nego/second-session', lambda ctx: h_second_session(ctx, second), weight=20,
+                   must_cover=tuple('earlier:' + n for n, _ in EARLIER_OPENS) + ('earlier-open-decoded', 'refresh-normal', 'refresh-enhanced', 'refresh-absent')))
     us.append(Unit('nego/refusal', lambda ctx: h_refusal(ctx, rconfs), must_cover=refusal_covers(rconfs), weight=20))
     for c in ([CAPS_QUICK[0], CAPS_QUICK[1], CAPS_QUICK[5], CAPS_QUICK[2]] if thorough else [CAPS_QUICK[5], CAPS_QUICK[1]]):
         us.append(Unit('nego/layout/' + c['name'], lambda ctx, c=c: h_layout(ctx, c),
